@@ -8,6 +8,9 @@
 -/
 import ClairModel.Proofs.Framing
 
+-- every variable of a property statement is bound explicitly: a misspelt name is an error, not a new variable
+set_option autoImplicit false
+
 namespace ClairModel.Props.C15
 open ClairModel ClairModel.Framing
 
